@@ -64,6 +64,10 @@ def row_objects():
     comp = "COMPLETED:" + (T0 + 3 * H).strftime("%Y%m%dT%H%M%SZ")
     cre = "CREATED:" + (T0 - H).strftime("%Y%m%dT%H%M%SZ")
     out.append(("VTODO/COMPLETED+CREATED/utc", "VTODO", [comp, cre], False))
+    # ... and a to-do recorded after it was finished: COMPLETED earlier than CREATED
+    comp_e = "COMPLETED:" + (T0 - 3 * H).strftime("%Y%m%dT%H%M%SZ")
+    cre_l = "CREATED:" + (T0 + 2 * H).strftime("%Y%m%dT%H%M%SZ")
+    out.append(("VTODO/COMPLETED-before-CREATED/utc", "VTODO", [comp_e, cre_l], False))
     out.append(("VTODO/COMPLETED/utc", "VTODO", [comp], False))
     out.append(("VTODO/CREATED/utc", "VTODO", [cre], False))
     out.append(("VTODO/none/-", "VTODO", [], False))
@@ -383,7 +387,9 @@ def gen_filter(rng):
                     feats.append("param-text-match")
                     pf["params"] = [{"name": par, "text_match": {"text": rng.choice(["Doe", "ACCEPT", "en", "Amsterdam", "zzz"])}}]
             elif pname in ("SUMMARY", "DESCRIPTION", "LOCATION", "CATEGORIES", "UID", "X-CUSTOM", "STATUS"):
-                text = rng.choice(["meeting", "Meeting", "lunch", "LUNCH", "Team meeting", "Zoë", "zoë", "ünï", "room", "work", "Work", "alpha", "c11g-1", "NEEDS", "notes", "x,y", "zzz-nothing", "a"])
+                text = rng.choice(["meeting", "Meeting", "lunch", "LUNCH", "Team meeting", "Zoë", "zoë", "ünï", "room", "work", "Work", "alpha", "c11g-1", "NEEDS", "notes", "x,y", "zzz-nothing", "a",
+                                   # whole values that differ from a stored one only in the case of a non-ASCII letter
+                                   "LUNCH WITH ZOË", "ünïcode party", "ÜNÏCODE PARTY", "CAFÉ"])
                 col = rng.choice([None, None, "i;ascii-casemap", "i;octet", "i;unicode-casemap"])
                 neg = rng.random() < 0.25
                 if pname == "CATEGORIES":
